@@ -29,20 +29,48 @@ Fixpoint find_fn (tab : fn_table) (name : string) : option (bool * list string) 
 Definition callee (t : string) : option string :=
   if String.prefix "call:" t then Some (String.substring 5 (String.length t - 5) t) else None.
 
-(* does the function touch shared state, itself or through the methods of the table it calls *)
-Fixpoint reaches_shared (fuel : nat) (tab : fn_table) (toks : list string) : bool :=
-  existsb is_shared_token toks ||
-  match fuel with
-  | O => false
-  | S f =>
-      existsb (fun t => match callee t with
-                        | Some n => match find_fn tab n with
-                                    | Some (_, toks') => reaches_shared f tab toks'
-                                    | None => false
-                                    end
-                        | None => false
-                        end) toks
+(* does the function touch shared state, itself or through the methods of the table it
+   calls?  The search follows call: tokens through the table with a visited list; fuel is a
+   termination device only: when it runs out with a call still to follow the answer is
+   the explicit [RsOutOfFuel], never "no" (site_guarded treats it as NOT guarded, and
+   reach_fuel_ok — proved over the regenerated table on every run — excludes it) *)
+Inductive reach_ans := RsYes | RsNo | RsOutOfFuel.
+
+Definition reach_join (a b : reach_ans) : reach_ans :=
+  match a, b with
+  | RsYes, _ | _, RsYes => RsYes
+  | RsOutOfFuel, _ | _, RsOutOfFuel => RsOutOfFuel
+  | RsNo, RsNo => RsNo
   end.
+
+Definition in_strs (x : string) (l : list string) : bool := existsb (String.eqb x) l.
+
+Fixpoint reaches_shared (fuel : nat) (tab : fn_table) (seen : list string) (toks : list string) : reach_ans :=
+  if existsb is_shared_token toks then RsYes else
+  fold_left
+    (fun acc t =>
+       match callee t with
+       | Some n =>
+           if in_strs n seen then acc
+           else match find_fn tab n with
+                | Some (_, toks') =>
+                    match fuel with
+                    | O => reach_join acc RsOutOfFuel
+                    | S f => reach_join acc (reaches_shared f tab (n :: seen) toks')
+                    end
+                | None => acc          (* not a function of the table: see the census of ConcState.v *)
+                end
+       | None => acc
+       end) toks RsNo.
+
+(* the fuel the checks run with: one unit per function of the table *)
+Definition reach_fuel (tab : fn_table) : nat := length tab.
+
+Definition reach_out_of_fuel (a : reach_ans) : bool := match a with RsOutOfFuel => true | _ => false end.
+
+(* no function of the table exhausts the fuel *)
+Definition reach_fuel_ok (tab : fn_table) : bool :=
+  forallb (fun f => negb (reach_out_of_fuel (reaches_shared (reach_fuel tab) tab [fst (fst f)] (snd f)))) tab.
 
 (* sc.mu.Lock(); defer sc.mu.Unlock() are the first statements (after the entry
    hook), and the lock is not touched again: the whole body is one critical section *)
@@ -59,7 +87,12 @@ Definition entry_locked (toks : list string) : bool :=
    on re-entry) *)
 Definition site_guarded (tab : fn_table) (f : string * bool * list string) : bool :=
   match f with
-  | (_, true, toks) => negb (reaches_shared 8 tab toks) || entry_locked toks
+  | (n, true, toks) =>
+      match reaches_shared (reach_fuel tab) tab [n] toks with
+      | RsNo => true
+      | RsYes => entry_locked toks
+      | RsOutOfFuel => false
+      end
   | (_, false, toks) => negb (existsb is_lock_token toks)
   end.
 
@@ -71,6 +104,7 @@ Definition no_lock_tokens (tab : fn_table) : bool :=
 
 Definition code_guarded : bool :=
   cache_has_mutex &&
+  reach_fuel_ok ConcGen.cache_methods &&
   forallb (site_guarded ConcGen.cache_methods) ConcGen.cache_methods &&
   no_lock_tokens ConcGen.placeholder_functions.
 
@@ -99,37 +133,6 @@ Definition expected_placeholder_functions : fn_table := [
   ("newRefPlaceholder", false, ["call:refTo"])
 ].
 
-(* the reflector and the codec reach the cache only through SchemaCache.Schema and
-   keep no other mutable state: no assignment to a receiver field in any method *)
-Definition only_calls (tab : fn_table) : bool :=
-  forallb (fun f => forallb (fun t => match callee t with Some _ => true | None => false end) (snd f)) tab.
-
+(* the functions of internal/codec that obtain the root schema through the reflector *)
 Definition expected_codec_entry_points : list string :=
   ["decoder.go:decode"; "encoder.go:encode"; "query.go:decodeQuery"].
-
-(* no state outside the cache on the encode/decode path: the structs hold only the pointer
-   chain Codec -> Reflector -> SchemaCache and immutable options; package-level variables
-   are the package-level default codec, an error value and read-only tables; nothing
-   assigns to any of them after initialisation *)
-Definition expected_reflector_fields : list string := ["schemaSet:*j5schema.SchemaCache"].
-Definition expected_codec_fields : list string :=
-  ["refl:*j5reflect.Reflector"; "resolver:MessageTypeResolver"; "addProtoToAny:bool"].
-Definition expected_cache_fields : list string := ["mu:sync.Mutex"; "packages:map"; "registered:slice"].
-Definition expected_codec_pkg_vars : list string := ["Global:call:NewCodec"; "errInvalidUTF8:call:errors.New"].
-Definition expected_reflect_pkg_vars : list string := [].
-Definition expected_schema_pkg_vars : list string := ["floatKinds:map"; "intKinds:map"; "wellKnownStringPatterns:map"].
-
-(* every function of lib/j5schema that writes a schema map or a To field: the methods of
-   *SchemaCache (under the lock), the three placeholder sites of the on-demand builder
-   (called with the lock held), and the builders of private SchemaSets (SchemaSetFromFiles,
-   messageSchema, the SchemaSet methods, buildSchemas of schema_from_desc.go), which never
-   see a SchemaCache *)
-Definition expected_schema_writers : list string := [
-  "schema_cache.go:Schema:delete:Schemas"; "schema_cache.go:refTo:write:Schemas";
-  "schema_cache.go:referencePackage:write:packages"; "schema_cache.go:schemaLocked:write:Schemas";
-  "schema_cache.go:schemaLocked:write:To";
-  "schema_from_desc.go:buildSchemas:write:Schemas"; "schema_from_desc.go:buildSchemas:write:To";
-  "schema_from_proto.go:SchemaSetFromFiles:write:To"; "schema_from_proto.go:buildEnumFieldSchema:write:To";
-  "schema_from_proto.go:buildMessageFieldSchema:write:To"; "schema_from_proto.go:messageProperties:write:To";
-  "schema_from_proto.go:messageSchema:write:Schemas"; "schema_from_proto.go:messageSchema:write:To";
-  "schema_set.go:refTo:write:Schemas"; "schema_set.go:referencePackage:write:Packages"].
